@@ -409,6 +409,16 @@ class World:
                 t = r
             route = 0 if route % 4 == 2 else route
         t = self.project(t)
+        sub = route >> 2
+        if sub % 3 == 0 and len(self.order) >= 2:
+            # a function of a drawn subset of the declared variables, so
+            # that some declared variables stay unused
+            keep_ = [x for l, x in enumerate(self.order)
+                     if (sub >> (2 + l)) & 1] or [self.order[sub % len(
+                         self.order)]]
+            t = tt.exists(t, self.n, [self.idx[x] for x in self.order
+                                      if x not in keep_])
+            self.label('build.subset_of_vars')
         route %= 4
         if route == 0:
             with self.quiet():
@@ -724,6 +734,115 @@ class World:
                     idx |= 1 << self.idx[x]
             require((tu >> idx) & 1, 'pick_iter.not_model', dict(d=d))
         self.label('queries')
+
+    def op_compare_all(self, k):
+        """All comparisons among a few held references (dd.autoref
+        Function operators; for dd.bdd the same relations via apply)."""
+        es = self.held[:3] + self.held[-3:]
+        F = self.F
+        for x in es:
+            for y in es:
+                tu, tv = x.t, y.t
+                le = (tu & ~tv & F) == 0
+                if self.kind == 'autoref':
+                    u, v = x.ref, y.ref
+                    require((u <= v) == le, 'function.le',
+                            dict(u=u.node, v=v.node))
+                    require((u < v) == (le and tu != tv), 'function.lt')
+                    require((u == v) == (tu == tv), 'function.eq')
+                    require((u != v) == (tu != tv), 'function.ne')
+                else:
+                    r = self.b.apply('=>', x.ref, y.ref)
+                    require((r == 1) == le, 'implies.validity',
+                            dict(u=x.ref, v=y.ref))
+        self.label('compare_all')
+
+    def op_churn(self, seed, mode):
+        """Fill the caches, release everything, collect (explicitly or
+        through a reordering), build as many new functions (which re-use
+        the freed node numbers) and ask the same questions again."""
+        k = min(len(self.held), 5)
+        if k == 0 or not self.order:
+            return
+        self.op_compare_all(0)
+        self.recompute()
+        tabs = [e.t for e in self.held[:3] + self.held[-3:]][:k]
+        while self.held:
+            self.op_drop(0)
+        mode %= 4
+        if mode == 0:
+            self.op_gc(0)
+        elif mode == 1:
+            self.op_sift()
+        elif mode == 2:
+            self.op_reorder_to(seed)
+        else:
+            self.op_swap(seed, 0)
+        rnd = random.Random(seed)
+        if seed % 3 and len(tabs) > 1:
+            # the same functions in another order (and polarity): the same
+            # node numbers come back with other meanings
+            sh = 1 + seed % (len(tabs) - 1)
+            tabs = tabs[sh:] + tabs[:sh]
+            for i_, t_ in enumerate(tabs):
+                if (seed >> (3 + i_)) & 1:
+                    t_ = ~t_ & self.F
+                self.hold(self._raw_build(t_), t_, 1)
+        else:
+            for _ in range(k):
+                self.op_build(rnd.randrange(1 << 16) * 65537 % (self.F + 1),
+                              4 * rnd.randrange(1, 4000), 1)
+        self.op_compare_all(0)
+        self.recompute()
+        self.label('churn')
+
+    def _raw_build(self, t):
+        with self.quiet():
+            u = Builder(self.b, self.U)(t)
+            if self.kind == 'autoref':
+                u = self._ar.Function(u, self.A)
+        return u
+
+    def op_fork(self, a, c):
+        """copy.copy(manager): the copy must be an equal, independent
+        manager; work done in the copy must not leak into the original
+        (and vice versa)."""
+        if self.kind != 'bdd':
+            return
+        import copy
+        m = copy.copy(self.b)
+        try:
+            led = self.ledger()
+            inv.check_order(m)
+            inv.check_structure(m)
+            inv.check_counts(m, led)
+            dm = Den(m, self.U)
+            for e in self.held:
+                require(dm(e.ref) == e.t, 'fork.copy_differs')
+            # new nodes in the copy, in another order than the original
+            # will create them
+            t = self.project(a * 2654435761 & self.F)
+            Builder(m, self.U)(t)
+            (u, tu), (v, tv) = self.pick(a), self.pick(c)
+            for op in ('and', 'xor', '=>'):
+                r = m.apply(op, u, v)
+                require(Den(m, self.U)(r) == tt.BINARY[op](tu, tv, self.n),
+                        'fork.wrong_result_in_copy', dict(op=op))
+            t2 = self.project((c * 40503 + a) & self.F)
+            Builder(self.b, self.U)(t2)
+            for op in ('and', 'xor', '=>'):
+                r = self.b.apply(op, u, v)
+                require(Den(self.b, self.U)(r) ==
+                        tt.BINARY[op](tu, tv, self.n),
+                        'fork.wrong_result_in_original', dict(op=op))
+            inv.check_structure(m)
+            inv.check_cache(m, Den(m, self.U))
+        finally:
+            # the copy is a plain dd.bdd.BDD: silence its shutdown check
+            for k_ in m._ref:
+                m._ref[k_] = 0
+            m._ref[1] = 1
+        self.label('fork')
 
     REPEATABLE = {'apply', 'not', 'ite', 'funcop', 'quantify', 'let_const',
                   'let_rename', 'let_compose', 'cube', 'var', 'add_expr',
